@@ -374,7 +374,11 @@ package otp
 //@ func otp.NewRawSuite(raw) (s, err)
 //@   ensures[registered] maphas(knownSuites, raw) ==> (err == nil <==> usable(mapget(knownSuites, raw))) &&
 //@ |    (err == nil ==> dyntype(s, RawSuite) && samecfg(suitecfg(s), mapget(knownSuites, raw)) && suitecfg(s).Raw == raw)
-//@   ensures[parsed] !maphas(knownSuites, raw) && err == nil ==> dyntype(s, RawSuite) && usable(suitecfg(s)) && suitecfg(s).Raw == raw
+//@   ensures[parsed] !maphas(knownSuites, raw) && err == nil ==> dyntype(s, RawSuite) && usable(suitecfg(s)) && suitecfg(s).Raw == raw &&
+//@ |    nparts(raw, ":") >= 3 && part(raw, ":", 0) == "OCRA-1" && cryptook(part(raw, ":", 1)) &&
+//@ |    suitecfg(s).Hash == hashof(part(part(raw, ":", 1)[5:], "-", 0)) && suitecfg(s).Digits == intval(part(part(raw, ":", 1)[5:], "-", 1))
+//@   ensures[tokens] !maphas(knownSuites, raw) && err == nil ==> forall k :: 0 <= k && k < nparts(part(raw, ":", 2), "-") ==>
+//@ |   tokok(part(part(raw, ":", 2), "-", k), upper(part(part(raw, ":", 2), "-", k)))
 
 // ---------------------------------------------------------------------------
 // suite string parser (token level). part(s, sep, i) / nparts(s, sep) are strings.Split's vocabulary.
@@ -402,6 +406,8 @@ package otp
 //@   ensures[crypto] err == nil ==> cryptook(part(raw, ":", 1)) && cfg.Hash == hashof(part(part(raw, ":", 1)[5:], "-", 0)) &&
 //@ |   cfg.Digits == intval(part(part(raw, ":", 1)[5:], "-", 1))
 //@   ensures[raw] err == nil ==> cfg.Raw == raw && usable(cfg)
+//@   ensures[tokens] err == nil ==> forall k :: 0 <= k && k < nparts(part(raw, ":", 2), "-") ==>
+//@ |   tokok(part(part(raw, ":", 2), "-", k), upper(part(part(raw, ":", 2), "-", k)))
 
 //@ func otp.isDigit(c) (r)
 //@   ensures r <==> isdig(c)
